@@ -237,6 +237,14 @@ func (sc *Scope) trIdent(name string) (Term, types.Type) {
 		if t, typ, ok := sc.frame.localByName(sc.st, name); ok {
 			return t, typ
 		}
+		// a loop contract adopted by an inlined helper may still speak about variables of the function it was written for
+		if sc.frame.adoptBase >= 0 {
+			for pf := sc.frame.parent; pf != nil; pf = pf.parent {
+				if t, typ, ok := pf.localByName(sc.st, name); ok {
+					return t, typ
+				}
+			}
+		}
 	}
 	if v, ok := sc.vars[name]; ok {
 		return v.T, v.Typ
@@ -246,7 +254,7 @@ func (sc *Scope) trIdent(name string) (Term, types.Type) {
 			ff = sc.frame
 		}
 		for i, fv := range ff.fn.FreeVars {
-			if fv.Name() == name && i < len(ff.freeVars) {
+			if (fv.Name() == name || fv.Name() == sc.vc.p.curName(ff.fn, name)) && i < len(ff.freeVars) {
 				elem := fv.Type().Underlying().(*types.Pointer).Elem()
 				return sc.load(ff.freeVars[i].T, elem), elem
 			}
@@ -441,7 +449,7 @@ func (sc *Scope) trRef(e Expr) (Term, types.Type, bool) {
 	if id, isId := e.(EIdent); isId && sc.frame != nil && !sc.qvars[id.Name] {
 		// a struct-typed local variable that lives in the heap (its address is taken): the object itself
 		for _, a := range sc.frame.allAllocs() {
-			if a.Comment != id.Name {
+			if a.Comment != id.Name && a.Comment != sc.vc.p.curName(sc.frame.fn, id.Name) {
 				continue
 			}
 			elem := a.Type().Underlying().(*types.Pointer).Elem()
@@ -625,7 +633,7 @@ func (sc *Scope) trBinary(x EBinary) (Term, types.Type) {
 		return App(SBool, x.Op, a, b), tBool
 	case "+":
 		if a.Sort == SStr {
-			return App(SStr, "scat", a, b), ta
+			return sc.vc.env.Cat(a, b), ta
 		}
 		return App(SInt, "+", a, b), ta
 	case "-", "*":
